@@ -163,6 +163,18 @@ CLAIMS = {
         "tolerance and the time-stepping error of TJM/MCWF are not mechanised (tolerances 2e-4 / 5e-3).",
         COMMON_NOTE,
         "DESIGN.md §3 C06"),
+    "C04": (
+        "Coq proof of the decision rule over R (sound, complete, equal unitaries accepted, symmetric under swapping) + bit-exact binary64 verdict correspondence on captured and constructed doubles + dense U1.U2^dagger correspondence + pair search",
+        "Machine-checked proof that the verdict is false whenever the normalised overlap is below fidelity minus the noise allowance, "
+        "true whenever it is at or above the fidelity (in particular for equal unitaries, for every n and every fidelity <= 1), and "
+        "invariant under swapping the circuits (|conj z| = |z|). The binary64 instance is compared bit for bit with the real "
+        "check_if_identity on the |trace| it actually used (captured) incl. near-miss values at +-1e-9 of the fidelity. The MPO built "
+        "by mpo_utils.iterate is compared densely with U1.U2^dagger (Qiskit) for arbitrary pairs with long-range gates, swaps, cz, cp. "
+        "Search: equivalence_checker.run on re-synthesised (equivalent) pairs and near-miss pairs, both argument orders, several SVD "
+        "thresholds. PARTIAL: the zone-by-zone MPO construction (temporal zones, SVD re-splitting, long-range gate MPOs) is tied "
+        "numerically, not mechanised.",
+        COMMON_NOTE + "Axioms: standard-library real-number axioms.",
+        "DESIGN.md §3 C04"),
 }
 
 NOT_YET = "check not built yet in this round (planned in DESIGN.md §3); no claim is made"
